@@ -30,13 +30,39 @@ def Outcome.connects : Outcome → Bool
   | .accept => true
   | _ => false
 
+/-- What kind of call the application issues. -/
+inductive CallKind
+  /-- an ordinary call: the peer, once reached, answers it -/
+  | plain
+  /-- a call whose effective deadline (`grpc-timeout` of the request, `Endpoint::timeout`) is
+  zero: it can be sent but never answered in time -/
+  | zeroDeadline
+  /-- a call that is still in flight (request delivered, response not yet complete) when the peer
+  drops the connection -/
+  | peerDies
+deriving DecidableEq, Repr
+
 /-- One step of a fault script, issued at a quiescent point. -/
 inductive Op
   /-- the application issues one call and waits for its result -/
   | call
   /-- the peer drops the established connection -/
   | die
+  /-- one call with a zero deadline -/
+  | callZero
+  /-- one call; the peer drops the connection while it is in flight -/
+  | callDie
+  /-- two callers issue one call each at the same moment (first one first), both wait -/
+  | pair
 deriving DecidableEq, Repr
+
+/-- The kind of call an op issues (`none`: not a call). -/
+def Op.kind? : Op → Option CallKind
+  | .call => some .plain
+  | .callZero => some .zeroDeadline
+  | .callDie => some .peerDies
+  | .die => none
+  | .pair => none
 
 /-- What the caller of one call sees. `attempt` is the connection attempt whose failure the
 error carries, when the error text identifies it. -/
@@ -46,6 +72,11 @@ inductive CallRes
   | hang
   | panic
   | garbled
+  /-- the call's own deadline expired (`TimeoutExpired`, CANCELLED) -/
+  | expired
+  /-- the call was in flight on connection `conn` when the peer dropped it: it ended with an
+  error that is not a connect error -/
+  | lost (conn : Nat)
 deriving DecidableEq, Repr
 
 /-- Building the channel (`connect_with_connector` / `connect_with_connector_lazy`). -/
@@ -60,6 +91,8 @@ system is quiescent again. -/
 inductive Ev
   | call (res : CallRes) (attempts : Nat)
   | die
+  /-- two concurrent calls: what the first and the second caller saw; `attempts` once both are done -/
+  | pair (first second : CallRes) (attempts : Nat)
 deriving DecidableEq, Repr
 
 structure Trace where
@@ -90,6 +123,38 @@ inductive SessBuild
   | fail (e : Nat)
   | hang
   | panic
+deriving DecidableEq, Repr
+
+/-! ### scripts over a real network endpoint (`Endpoint::connect` / `connect_lazy`) -/
+
+/-- One step of a script against a real listening socket (loopback TCP port, unix socket). -/
+inductive NOp
+  /-- a server starts listening on the endpoint's address (a new server generation) -/
+  | up
+  /-- the server goes away: the listener is closed and its connections are dropped -/
+  | down
+  /-- the application issues one call and waits for its result -/
+  | call
+deriving DecidableEq, Repr
+
+/-- What the caller of one call sees; `gen` is the server generation that answered. -/
+inductive NRes
+  | resp (gen : Nat)
+  | error (code : Nat)
+  | hang
+  | garbled
+deriving DecidableEq, Repr
+
+/-- `Endpoint::connect()` / `connect_lazy()`. -/
+inductive NBuild
+  | ok
+  | error (code : Nat)
+  | hang
+deriving DecidableEq, Repr
+
+structure NTrace where
+  build : NBuild
+  evs : List NRes
 deriving DecidableEq, Repr
 
 end ConnScript
